@@ -13,8 +13,8 @@
    to (base, j) — provided the reference graph is well-formed in the sense of the hypotheses G_*, which a decision
    procedure establishes by computation on any finite graph ([C02_checked_graph]).
    Not proved (covered by the correspondence and the oracle only): the chains of parameter / response / path-item
-   references (deref) — the area of the open findings F7 and F8 — and the three URL-algebra conditions in G_same/G_render
-   for ALL urls (they are decided per graph instead). *)
+   references (deref) — where the defects F7 and F8 were found and repaired — and the URL-algebra conditions in
+   G_same/G_render for ALL urls (they are decided per graph instead). *)
 From Coq Require Import List String Bool.
 From Spec Require Import Base.Json Base.Url Codec.Types Codec.Gen_Tables Codec.Codec Codec.CodecFacts
   Expand.Expand Expand.ExpandFacts Expand.ExpandSim Expand.ExpandSimCheck Expand.ExpandCycle Expand.ExpandExample.
@@ -111,10 +111,10 @@ Proof.
 Qed.
 Print Assumptions C02_example_conclusion.
 
-(* ---------- the full statement, over whole specifications ---------- *)
-(* every parameter, response and path item as well: their `$ref` chains (deref) are NOT covered by the theorems above.
-   On the faithful model the statement is false there — finding F7: a chain whose second hop is fragment-only is resolved
-   in the document of the first resolver.  The model reproduces the implementation's answer: *)
+(* ---------- beyond the schema walk ---------- *)
+(* parameters, responses and path items as well: their `$ref` chains (deref) are NOT covered by the theorems above; they
+   are tied by the differential run and judged by the oracle.  The witness of the repaired defect F7 (a chain whose
+   second hop is fragment-only was resolved in the document of the first resolver) as an evaluation of the model: *)
 Definition f7_root := pj
  "{""swagger"":""2.0"",""info"":{""title"":""doc0"",""version"":""1""},
    ""parameters"":{""p0"":{""in"":""query"",""name"":""q28"",""type"":""string""},""p1"":{""$ref"":""#/parameters/p0""}},
@@ -132,7 +132,7 @@ Definition f7_out : option json :=
               end
   | _ => None
   end.
-(* the parameter of /y is root.json#/parameters/p1 -> root.json#/parameters/p0, named "q28"; the expansion delivers the
-   p0 of the OTHER document *)
-Example C02_refuted_on_parameter_chains_F7 : f7_out = Some (JStr "other").
+(* the parameter of /y is root.json#/parameters/p1 -> root.json#/parameters/p0, named "q28" (before the repair the
+   expansion delivered the p0 of the OTHER document, named "other") *)
+Example C02_parameter_chain_second_hop : f7_out = Some (JStr "q28").
 Proof. vm_compute. reflexivity. Qed.
